@@ -104,6 +104,12 @@ func (g *generator) validateBindingSelection(
 			nil, "invalid type-binding %s.expect_exact_fields: %w", typeName, gqlErr)
 	}
 
+	if len(doc.Operations) == 0 {
+		return errorf(
+			nil, "invalid type-binding %s.expect_exact_fields: "+
+				"expected a selection set, like \"{ id name }\"", typeName)
+	}
+
 	err := selectionsMatch(pos, doc.Operations[0].SelectionSet, selectionSet)
 	if err != nil {
 		return fmt.Errorf("invalid selection for type-binding %s: %w", typeName, err)
